@@ -18,6 +18,7 @@ MAX = int(opt("--max", "100000"))
 SEED = int(opt("--seed", "1"))
 RUN_TESTS = "--tests" in args
 FILES = opt("--files")
+ONLY = opt("--only")  # results.jsonl of an earlier sweep: re-run only its survivors
 PROPS = ["C01","C02","C03","C04","C05","C06","C07","C08","C09","C10","C11","C12","C13","C14","C15","C16","C17","C18"]
 
 repo = os.path.join(scratch, "repo")
@@ -119,6 +120,16 @@ for f in src_files:
             continue
         cands.append((f, i, desc, new, kind))
 random.Random(SEED).shuffle(cands)
+if ONLY:
+    keep = set()
+    for l in open(ONLY):
+        try:
+            j = json.loads(l)
+        except Exception:
+            continue
+        if j.get("status") == "survived":
+            keep.add((j["file"], j["line"], j["op"]))
+    cands = [c for c in cands if (c[0], c[1] + 1, c[2]) in keep]
 done = set()
 res_path = os.path.join(scratch, "results.jsonl")
 if os.path.exists(res_path):
